@@ -32,8 +32,27 @@ func init() {
 			"Non-trivial = request of >=2 leaves or a forest with deleted leaves; distinct = distinct (alive pattern, request slots in order, prover configuration).",
 		Assumptions: []string{"SHA-512/256 collision freedom", "reference model correct"},
 		MinDistinct: 100,
-		Plan:        func(tier string) []core.Suite { return c02Plan(tier).suites() },
+		Plan: func(tier string) []core.Suite {
+			n := 800
+			if tier == "thorough" {
+				n = 40000
+			}
+			return append(c02Plan(tier).suites(), core.Suite{Name: "ops", N: n})
+		},
 		Run: func(c *core.Ctx) {
+			if c.Suite == "ops" {
+				// states reached through undo, remembering, pruning and refused calls
+				prof := gen.Tiny
+				if c.Index%3 == 0 {
+					prof = gen.Small
+				}
+				prof.RememberMode = 1
+				tag := uint64(c.Seed)<<32 | uint64(c.Index) | 1<<52
+				cfgs := []InstCfg{{Kind: "pollard"}, {"mapfull", []uint8{0, 5, 63}[c.Index%3]}, {"mappartial", []uint8{63, 0, 2}[c.Index%3]}}
+				s := genForestScenario(c.Rng, tag, cfgs, fGenOpts{Profile: prof, Rounds: 1 + c.Rng.Intn(3), Undo: true, PartialOps: true, ForceEmptyRootOverwrite: c.Index%4 == 0})
+				c02Ops(c, s)
+				return
+			}
 			h := c02Plan(c.Tier).history(c)
 			cfgs := StdCfgs(c.Rng, c.Tier, c.Index)
 			if c.Suite == "tall" {
@@ -42,6 +61,11 @@ func init() {
 			c02Check(c, histScenario{History: h, Cfgs: cfgs})
 		},
 		Replay: func(c *core.Ctx, raw json.RawMessage) {
+			var fs fScenario
+			if json.Unmarshal(raw, &fs) == nil && len(fs.Ops) > 0 {
+				c02Ops(c, fs)
+				return
+			}
 			s, err := parseHistScenario(raw)
 			if err != nil {
 				c.Inconclusive("bad scenario")
@@ -174,6 +198,19 @@ func c02CheckState(c *core.Ctx, w *World, f *rm.Forest, when string, k int) {
 			}
 		}
 	}
+}
+
+// c02Ops runs the per-state prover checks after every operation of a forest scenario.
+func c02Ops(c *core.Ctx, s fScenario) {
+	c.SetScenario(s)
+	k := 2
+	if c.Tier == "thorough" {
+		k = 8
+	}
+	runForest(c, s, func(site, clause, trigger, detail string) { c.Violate(site, "setup:"+clause, trigger, detail) }, func(st *fState) {
+		c.Count("states_after_"+st.Op.Kind, 1)
+		c02CheckState(c, st.W, st.F, st.When, k)
+	})
 }
 
 func aliveStr(a []bool) string {
